@@ -25,7 +25,7 @@ def make_cfg(seed, i, for_ref=False):
     spec = gen.gen_problem(rng, kinds=("linear", "sinlin", "exp", "rosen"), nmax=4 if for_ref else 5, mmax=6, noise_p=0.6)
     n = spec["n"]
     npt = int(rng.integers(n + 1, 2 * n + 2)) if r() < 0.3 else None
-    opt = gen.gen_options(rng, n, npt=npt, restarts_p=0.6, allow=("restarts", "regression", "growing", "tols"))
+    opt = gen.gen_options(rng, n, npt=npt, restarts_p=0.6, allow=("restarts", "regression", "growing", "tols", "rare"))
     up = opt["user_params"]
     cfg = dict(prob=spec, x0=(rng.normal(size=n) * 2).tolist(), lower=None, upper=None, user_params=up)
     if for_ref:
